@@ -47,6 +47,9 @@ for cls, qn in (('Socket', 'socket.Socket.poll'), ('AsyncSocket', 'async_socket.
            'at every call site) or built by Packet.__init__ on the spot; nothing modifies a '
            'queued packet except Packet.encode, which preserves packet_ok')
     c.ensures('taken-is-result', 'self.queue.taken == old(self.queue.taken) + result')
+    c.ensures('fifo-head', 'implies(len(old(self.queue.items)) > 0 and '
+              'old(self.queue.items)[0] is not None, len(result) > 0 and '
+              'result[0] == old(self.queue.items)[0])')
     c.ensures('accepted-grows', 'self.queue.accepted[0:len(old(self.queue.accepted))] == '
               'old(self.queue.accepted)')
     c.ensures('queue-wf', 'self.queue.unf >= len(self.queue.items)')
@@ -63,6 +66,8 @@ for cls, qn in (('Socket', 'socket.Socket.poll'), ('AsyncSocket', 'async_socket.
     c.loop(0, invariants=[
         ('no-None', 'forall(lambda k: packets[k] is not None, 0, len(packets))'),
         ('nonempty', 'len(packets) >= 1'),
+        ('fifo-head', 'implies(len(old(self.queue.items)) > 0, '
+         'packets[0] == old(self.queue.items)[0])'),
         ('sentinel-balance', 'self.queue.taken_none - old(self.queue.taken_none) == '
          'self.queue.put_none - old(self.queue.put_none)'),
         ('queue-wf', 'self.queue.unf >= len(self.queue.items)'),
